@@ -113,6 +113,29 @@ def site_correspondence(ctx: Ctx, results):
             ctx.traces_validated += 1
 
 
+def gen_balanced_threshold(rng):
+    """A threshold zone (hot or cold utility only) in which a hot and a cold stream on the far side of the pinch
+    balance EXACTLY, so that the grand composite curve returns to zero at a second row; plus an ordinary zone."""
+    q = float(rng.randrange(1, 40) * 50)
+    q2 = float(rng.randrange(1, 20) * 50)
+    dt = rng.choice([5.0, 2.5, 0.0, 10.0])
+    t0 = float(rng.randrange(3, 12) * 10)
+    S = lambda n, z, a, b, d: {"name": n, "zone": z, "t_supply": a, "t_target": b, "heat_flow": d, "dt_cont": dt, "htc": 1.0}
+    if rng.random() < 0.5:
+        # hot utility only: C1 on top; below it H1 exactly serves C2
+        ss = [S("C1", "A", t0 + 110, t0 + 110 + rng.choice([20.0, 50.0]), q2), S("H1", "A", t0 + 100, t0 + 60, q), S("C2", "A", t0, t0 + 40, q)]
+    else:
+        # cold utility only: H3 at the bottom; above it H1 exactly serves C2
+        ss = [S("H1", "A", t0 + 100, t0 + 60, q), S("C2", "A", t0, t0 + 40, q), S("H3", "A", t0 - 10 + (0 if dt else 0), t0 - 40, q2)]
+    if rng.random() < 0.5:
+        # split the balancing pair into several exactly matching pieces
+        ss.append(S("H1b", "A", t0 + 100, t0 + 60, q / 2)); ss.append(S("C2b", "A", t0, t0 + 40, q / 2))
+    if rng.random() < 0.8:
+        ss += [S("H9", "B", 300.0, 100.0, float(rng.randrange(2, 20) * 50)), S("C9", "B", 50.0, 250.0, float(rng.randrange(2, 20) * 50))]
+    rng.shuffle(ss)
+    return {"streams": ss, "utilities": P.gen_utilities(rng, ss, kind=rng.choice(["none", "none", "outside"])), "options": {}}
+
+
 def run(ctx: Ctx):
     ctx.rule = ("the service on random stream sets x zone partitions x utility sets (none, isothermal, gliding, several levels): for "
                 "EVERY record returned (direct integration of every zone, total-process sum, total-site) Qh - Qc = cold - hot duty of "
@@ -122,6 +145,7 @@ def run(ctx: Ctx):
     corpus = load_corpus("C02")
     probs = [c["problem"] for c in corpus if c.get("kind") == "service"]
     probs += [c03.gen_util_problem(ctx.rng) for _ in range(ctx.n(300, 6000))]
+    probs += [gen_balanced_threshold(ctx.rng) for _ in range(ctx.n(60, 1200))]
     for pr in probs:
         nz = len({s["zone"] for s in pr["streams"]})
         ctx.count({"kind": "service", "n_streams": len(pr["streams"]), "zones": sorted({s["zone"] for s in pr["streams"]}), "n_util": len(pr["utilities"])},
